@@ -586,7 +586,7 @@ def generate() -> dict:
     def tbl_lean(tbl):
         return llist(["(" + lchar(k[0] if k else "\0") + ", " + lstr(v) + ")" for k, v in tbl])
 
-    tables = f"""-- GENERATED by harness/translate.py from {REPO} — do not edit.
+    tables = f"""-- GENERATED by harness/translate.py from the source of /repo (or VERIF_REPO) — do not edit.
 import HtmlVerif.Model.Str
 
 namespace HtmlVerif.Generated
@@ -618,7 +618,7 @@ def renderModeDefault : Str := {lstr(mode_default or "?")}
 
 end HtmlVerif.Generated
 """
-    tagfns = f"""-- GENERATED by harness/translate.py from {REPO} — do not edit.
+    tagfns = f"""-- GENERATED by harness/translate.py from the source of /repo (or VERIF_REPO) — do not edit.
 import HtmlVerif.Model.Str
 
 namespace HtmlVerif.Generated
